@@ -8,6 +8,11 @@ model run: the same chunks / fills through the Lean consumer+framer models (endr
 oracle   : delivered == sent, in order, once each; no error; nothing retained at the end; the delivered packets are retained
            by the harness as the application would keep them and still have the same value once the whole stream has been
            received (a packet must not alias the receive buffer)
+session 4: every constructor option of every serializer is a spec key drawn from its legal domain (sers.vary: encodings x error
+           handlers, JSON encoder / decoder knobs, struct formats and byte orders, named-tuple layouts with text and bytes fields,
+           keyed checksums, compression levels, pickle protocols, any one-shot serializer inside the wrappers, composites whose
+           halves differ); valid packet = what the sender accepts (sers.valid_packet), generated so that it NEEDS the option (lone
+           surrogates, interior NUL bytes, text ending with a lone CR / LF); corpus `_session4_corpus` (docs/SER-STRENGTHENING.md 6-10)
 """
 from __future__ import annotations
 
@@ -115,6 +120,11 @@ def model_input(case: dict, real: list[str]):
     if case.get("kind") == "producer":
         return f"prod {case['spec']['sep']}", [f"ser {h or '-'}" for h in case["datas"]]
     if any(ln.startswith("mutated ") for ln in real):
+        return None
+    if case.get("bigframes") and case["spec"]["k"] not in sers.FILE_TOYS:
+        # the Lean separator framer models are quadratic in the frame length (5 s for this corpus' 40 KB frames; C06 and C07 put
+        # sampled frames of that size through them): here only the file toys go through their (generic, linear) model; the
+        # oracle judges all of them
         return None
     head = sers.model_head(case["spec"], case["path"], case.get("hint", 0))
     if head is None:
@@ -241,6 +251,7 @@ def corpus() -> list[dict]:
     cases.append({"spec": {"k": "json", "use_lines": False, "limit": 64}, "path": "copy",
                   "packets": [sers.enc_val({"a": "}\""}), sers.enc_val(12), sers.enc_val([1, [2]])], "cuts": [1], "hint": 1, "conv": False})
     cases += _session3_corpus()
+    cases += _session4_corpus()
     # ---- raw JSON framer ---- backslash runs before quotes cut at every position; texts exactly at the limit
     pk = [sers.enc_val("a\\\\\"}]\\"), sers.enc_val([]), sers.enc_val(None), sers.enc_val({"\\": "\"", "k": [[], {}]}), sers.enc_val(-12.5)]
     for i in range(1, 55):
@@ -283,6 +294,83 @@ def _session3_corpus() -> list[dict]:
             for path in ("copy", "buffered"):
                 out.append({"spec": {"k": k, "limit": 32, "expected": e, "debug": e == "tuple"}, "path": path,
                             "packets": [ev(b"abcdef"), ev(b""), ev(b"gh")], "cuts": [3, 1, 4], "hint": 5, "conv": False})
+    return out
+
+
+def _session4_corpus() -> list[dict]:
+    """constructor options: (a) the line serializer used through its ONE-SHOT interface inside every wrapper (base64 with 1..4-byte
+    separators / keyed checksum, zlib, bz2, base64 of zlib): packets ending with PARTS of the newline sequence must come back
+    unchanged; (b) every error handler x encoding of the text serializers with packets that NEED the handler (lone surrogates as
+    surrogateescape / surrogatepass produce them) — line, JSON (ensure_ascii off), named-tuple struct text fields; (c) named-tuple
+    struct fields: interior NUL bytes in text and in bytes fields, strip on/off, every byte order; struct formats with pad bytes,
+    repeat counts, s / p / c / ? fields"""
+    ev = sers.enc_val
+    out: list[dict] = []
+
+    def add(spec, packets, oneshot_text: bool = False):
+        for path in (("copy", "buffered") if sers.is_buffered(spec) else ("copy",)):
+            for cuts, hint in (([1], 1), ([3, 1, 7], 8), ([1000], 16384)):
+                out.append({"spec": spec, "path": path, "packets": [ev(p) for p in packets], "cuts": cuts, "hint": hint, "conv": False})
+
+    # (a)
+    for nl, texts in (("CRLF", ["abc\r", "abc\n", "\r", "\n", "x\n\r", "a\rb", "\n\n\r", "y"]), ("CR", ["abc\n", "\n", "a\nb", "z"]),
+                      ("LF", ["abc\r", "\r", "a\rb", "z"])):
+        for dbg in (False, True):
+            inner = {"k": "line", "newline": nl, "keep_end": False, "encoding": "ascii", "limit": 65536, "debug": dbg}
+            add({"k": "b64", "inner": inner, "alphabet": "urlsafe", "checksum": dbg, "separator": "0d0a", "limit": 65536}, texts)
+            add({"k": "b64", "inner": inner, "alphabet": "standard", "checksum": {"key": sers.B64_KEYS[0], "as": "str"},
+                 "separator": "3c7c3e", "limit": 128, "debug": dbg}, texts)
+            add({"k": "zlib", "inner": inner, "level": 1, "debug": dbg}, texts)
+            add({"k": "bz2", "inner": inner, "level": 9}, texts)
+        add({"k": "b64", "inner": {"k": "zlib", "inner": {"k": "line", "newline": nl, "limit": 64, "encoding": "utf-8", "errors": "strict"}},
+             "alphabet": "urlsafe", "checksum": False, "separator": "0a", "limit": 65536}, texts)
+    # (b)
+    for enc, err, texts in (("ascii", "surrogateescape", ["caf\udce9", "\udcff\udc80", "plain"]),
+                            ("utf-8", "surrogateescape", ["\udcff", "ok \udce9x", "é€"]),
+                            ("utf-8", "surrogatepass", ["\ud800", "a\udfffb", "😀"]),
+                            ("utf-16", "surrogatepass", ["\ud800x", "abc"]),
+                            ("latin-1", "replace", ["é", "abc"]), ("cp1252", "ignore", ["€", "x"]),
+                            ("utf-7", "strict", ["a+b", "é~\\"]), ("utf-8-sig", "strict", ["abc", "é"]),
+                            ("idna", "strict", ["example.org", "bücher.example"]), ("punycode", "strict", ["bücher", "abc"])):
+        for nl in ("LF", "CRLF"):
+            add({"k": "line", "newline": nl, "keep_end": False, "encoding": enc, "errors": err, "limit": 64}, texts)
+        if enc in sers.ENC_ASCII:
+            add({"k": "line", "newline": "CRLF", "keep_end": True, "encoding": enc, "errors": err, "limit": 64}, [t + "\r\n" for t in texts])
+            for ul in (True, False):
+                add({"k": "json", "use_lines": ul, "limit": 256, "encoding": enc, "errors": err,
+                     "enc": {"ensure_ascii": False, "allow_nan": True, "skipkeys": False, "check_circular": True}},
+                    [{"k": t} for t in texts] + [[t] for t in texts] + texts)
+        add({"k": "zlib", "inner": {"k": "json", "use_lines": True, "limit": 64, "encoding": enc, "errors": err}}, [{"k": t} for t in texts])
+        if enc not in ("idna", "punycode", "utf-16", "utf-7", "utf-8-sig"):
+            for strip in (True, False):
+                for endian in ("", "<", "@"):
+                    spec = {"k": "ntstruct", "fields": [["n", "h"], ["name", "12s"], ["tag", "c"], ["nick", "8s"]], "endian": endian,
+                            "encoding": enc, "errors": err, "strip": strip}
+                    nt = sers.nt_class(["n", "name", "tag", "nick"])
+                    add(spec, [nt(i - 1, t, b"\0", "ab\0cd") for i, t in enumerate(texts) if len(t.encode(enc, err)) <= 8])
+    # (c)
+    nt = sers.nt_class(["ident", "address", "key"])
+    for strip in (True, False):
+        for endian in ("", "!", "<", ">", "=", "@"):
+            add({"k": "ntstruct", "fields": [["ident", "I"], ["address", "4s"], ["key", "8s"]], "endian": endian, "encoding": None, "strip": strip},
+                [nt(2, b"\x7f\x00\x00\x01", b"\x00k\x00\x00e\xffy!"), nt(0, b"\x00\x00\x00\x01", b"12345678"), nt(2 ** 32 - 1, b"abcd", b"\x00\x00\x00\x00\x00\x00\x00z")])
+    nt = sers.nt_class(["name", "nickname", "age"])
+    for enc in ("utf-8", "ascii", "latin-1"):
+        add({"k": "ntstruct", "fields": [["name", "12s"], ["nickname", "8s"], ["age", "H"]], "endian": "", "encoding": enc, "errors": "strict", "strip": True},
+            [nt("ab\0cd", "x", 1), nt("\0hidden", "\0\0y", 65535), nt("John", "", 20)])
+    # (d) frames far above the default read size (16 KiB) under limits that hold them, small buffer hints: 16 KiB +- 1, 20000, 40000
+    big = [ev("q" * 16383), ev("r" * 16384), ev("s" * 16385), ev("t" * 20000), ev("u" * 40000)]
+    for spec, pk in (({"k": "line", "newline": "LF", "keep_end": False, "encoding": "ascii", "limit": 65536}, big),
+                     ({"k": "line", "newline": "CRLF", "keep_end": False, "encoding": "utf-8", "errors": "replace", "limit": 40100}, big),
+                     ({"k": "autosep", "sep": "3c7c3e", "limit": 41000, "check": True}, [ev(sers.dec_val(v).encode()) for v in big]),
+                     ({"k": "b64", "inner": {"k": "line", "newline": "LF", "limit": 65536, "encoding": "ascii"}, "alphabet": "urlsafe",
+                       "checksum": True, "separator": "0d0a", "limit": 65536}, big[:4]),
+                     ({"k": "filetoy", "limit": 65536, "hdr": 4}, [ev(sers.dec_val(v).encode()) for v in big[:4]])):
+        for path, hint, cuts in (("buffered", 1024, [4096]), ("buffered", 65536, [16384, 1000]), ("copy", 1, [8192])):
+            out.append({"spec": spec, "path": path, "packets": pk, "cuts": cuts, "hint": hint, "conv": False, "bigframes": True})
+    for fmt, pk in ((">3H", (1, 65535, 0)), ("<2xHx", (513,)), ("=hQ", (-32768, 2 ** 64 - 1)), ("@bI", (-128, 7)), ("!4sB", (b"a\0\0b", 9)),
+                    ("<5pH", (b"ab\0c", 2)), ("!c?", (b"\n", True)), ("!d", (0.1,)), ("<e", (-2.0,)), ("hh", (-1, 1)), ("@c3xi", (b"\0", -5))):
+        add({"k": "struct", "format": fmt}, [pk, pk])
     return out
 
 
